@@ -155,3 +155,60 @@ def pf_bad(b: bytes) -> bool:
     if pf_status(b) == 1:
         return False
     return pf_bad(pf_rest(b))
+
+
+# ---------------------------------------------------------------------------------------------------------
+# Noise framing (C03/C04): 0x01, 16-bit big-endian length, that many bytes
+# ---------------------------------------------------------------------------------------------------------
+def nf_len(b: bytes) -> int:
+    """The 16-bit big-endian length field of the frame at the front of b (defined for len(b) >= 3)."""
+    return (b[1] << 8) | b[2]
+
+
+def nf_status(b: bytes) -> int:
+    """Front of a non-empty Noise buffer: 0 = one complete frame, 1 = incomplete (wait), 2 = bad marker byte."""
+    if len(b) < 3:
+        return 1
+    if b[0] != 1:
+        return 2
+    if len(b) < 3 + nf_len(b):
+        return 1
+    return 0
+
+
+def nf_frame(b: bytes) -> bytes:
+    return b[3:3 + nf_len(b)]
+
+
+def nf_rest(b: bytes) -> bytes:
+    return b[3 + nf_len(b):]
+
+
+def nf_frames(b: bytes) -> "seq[bytes]":
+    """All complete frames at the front of b, greedily."""
+    if len(b) == 0 or nf_status(b) != 0:
+        return ()
+    return (nf_frame(b),) + nf_frames(nf_rest(b))
+
+
+def nf_tail(b: bytes) -> bytes:
+    if len(b) == 0 or nf_status(b) != 0:
+        return b
+    return nf_tail(nf_rest(b))
+
+
+def nf_bad(b: bytes) -> bool:
+    if len(b) == 0:
+        return False
+    if nf_status(b) == 2:
+        return True
+    if nf_status(b) == 1:
+        return False
+    return nf_bad(nf_rest(b))
+
+
+def noise_frames(P: "seq[tuple[int,bytes]]", k: int, key: "obj", n0: int) -> bytes:
+    """Wire bytes of the first k packets in Noise framing: 0x01, 16-bit BE ciphertext length, AEAD(key, n0 + i, 16-bit type ++ 16-bit length ++ payload)."""
+    if k <= 0:
+        return b""
+    return noise_frames(P, k - 1, key, n0) + b"\x01" + be16(len(P[k - 1][1]) + 20) + aead_enc(key, n0 + k - 1, be16(P[k - 1][0]) + be16(len(P[k - 1][1])) + P[k - 1][1])
